@@ -392,16 +392,28 @@ func (o *baseDynamicObject) checkDynamicObjectPropertyDescr(name fmt.Stringer, d
 	return true
 }
 
+// _define is _set for [[DefineOwnProperty]]: a descriptor without [[Value]] keeps the value of an existing
+// property and creates a missing one as undefined (the handler never sees a nil Value).
+func (o *dynamicObject) _define(prop string, v Value, throw bool) bool {
+	if v == nil {
+		if o.d.Has(prop) {
+			return true
+		}
+		v = _undefined
+	}
+	return o._set(prop, v, throw)
+}
+
 func (o *dynamicObject) defineOwnPropertyStr(name unistring.String, desc PropertyDescriptor, throw bool) bool {
 	if o.checkDynamicObjectPropertyDescr(name, desc, throw) {
-		return o._set(name.String(), desc.Value, throw)
+		return o._define(name.String(), desc.Value, throw)
 	}
 	return false
 }
 
 func (o *dynamicObject) defineOwnPropertyIdx(name valueInt, desc PropertyDescriptor, throw bool) bool {
 	if o.checkDynamicObjectPropertyDescr(name, desc, throw) {
-		return o._set(name.String(), desc.Value, throw)
+		return o._define(name.String(), desc.Value, throw)
 	}
 	return false
 }
@@ -701,7 +713,7 @@ func (a *dynamicArray) hasOwnPropertyIdx(v valueInt) bool {
 func (a *dynamicArray) defineOwnPropertyStr(name unistring.String, desc PropertyDescriptor, throw bool) bool {
 	if a.checkDynamicObjectPropertyDescr(name, desc, throw) {
 		if idx, ok := strToInt(name); ok {
-			return a._setIdx(idx, desc.Value, throw)
+			return a._defineIdx(idx, desc.Value, throw)
 		}
 		typeErrorResult(throw, "Cannot define property %q on a dynamic array", name.String())
 	}
@@ -710,9 +722,20 @@ func (a *dynamicArray) defineOwnPropertyStr(name unistring.String, desc Property
 
 func (a *dynamicArray) defineOwnPropertyIdx(name valueInt, desc PropertyDescriptor, throw bool) bool {
 	if a.checkDynamicObjectPropertyDescr(name, desc, throw) {
-		return a._setIdx(toIntStrict(int64(name)), desc.Value, throw)
+		return a._defineIdx(toIntStrict(int64(name)), desc.Value, throw)
 	}
 	return false
+}
+
+// _defineIdx is _setIdx for [[DefineOwnProperty]], see dynamicObject._define.
+func (a *dynamicArray) _defineIdx(idx int, v Value, throw bool) bool {
+	if v == nil {
+		if a._has(idx) {
+			return true
+		}
+		v = _undefined
+	}
+	return a._setIdx(idx, v, throw)
 }
 
 func (a *dynamicArray) _delete(idx int, throw bool) bool {
